@@ -18,6 +18,11 @@ def run(model, rep, tier):
     r6_child_arguments(ctx, rep)
     from . import c11
     c11.r3_feature_order(ctx, rep, R='C03.R7')
+    rep.rule('C03.R8', 'every selected test is found: the flattening walk over nested suites visits '
+             'every member of every suite unconditionally (no pruning by the suite\'s own level or '
+             'layer -- those are decided per leaf test)')
+    from . import c09
+    c09.visits_every_member(ctx, rep, 'C03.R8')
     rep.units['cfg'] = ctx.cfg_stats
 
 
@@ -294,7 +299,10 @@ def r5_one_process_per_layer(ctx, rep, R='C03.R5'):
     rep.rule(R, 'exactly one process per layer: a layer that run_layer completed is popped exactly '
              'once; resume_tests creates one thread per queued layer and starts each exactly once; '
              'the empty first layer is inserted iff processes > 1 and not in a child, so in a -j N '
-             'parent every real layer goes to a child')
+             'parent every real layer goes to a child; a child keeps exactly the layer named by '
+             '--resume-layer')
+    from .common import child_keeps_only_own_layer
+    child_keeps_only_own_layer(ctx, rep, R)
     m = ctx.model
     fi = m.func('runner.Runner.run_tests')
     g = ctx.cfg(fi)
